@@ -364,7 +364,11 @@ func (d *diff) compareResults(dctx *diffCtx, r Range, myRes, otherRes RangeResul
 			dctx.compareFunc(dctx, myRes.Elements, otherRes.Elements)
 		} else {
 			r.Elements = true
-			dctx.compareFunc(dctx, d.getRange(r).Elements, otherRes.Elements)
+			// getRange reads the skip list and the ranges: take the read lock like Ranges does
+			d.mu.RLock()
+			myElements := d.getRange(r).Elements
+			d.mu.RUnlock()
+			dctx.compareFunc(dctx, myElements, otherRes.Elements)
 		}
 		return
 	}
